@@ -617,11 +617,16 @@ namespace {
  * call, including when the call ends with an exception
  */
 struct InUseGuard {
-  explicit InUseGuard(bool &flag) : flag_(flag) { flag_ = true; }
-  ~InUseGuard() { flag_ = false; }
+  explicit InUseGuard(bool &flag) : flag_(flag), previous_(flag) {
+    flag_ = true;
+  }
+  // A call made from a callback of a running call must leave the circuit
+  // marked as in use when it ends
+  ~InUseGuard() { flag_ = previous_; }
   InUseGuard(const InUseGuard &) = delete;
   InUseGuard &operator=(const InUseGuard &) = delete;
   bool &flag_;
+  bool previous_;
 };
 }  // namespace
 
